@@ -10,7 +10,7 @@ CHECKS = {
     "C07": dict(
         category="fault_enumeration", design_ref="DESIGN.md 5/C07",
         technique="deterministic simulation with fault injection: seeded command sequences against simulated SG_IO/iSCSI bindings with injected status/sense/ioctl faults; per-command oracle from the fault delivered",
-        text="Seeded search over command sequences with status (all 256 bytes), sense and ioctl faults injected inside commands (also two faults inside one call, also on the attach INQUIRY) on both simulated transports, through direct execute (fresh and re-executed command objects) and every facade method, raw sense on/off; the status x transport x path x raw sub-space is enumerated completely in the thorough tier. Evidence, not proof: sequences are sampled.",
+        text="Seeded search over command sequences with status (all 256 bytes), sense and ioctl faults injected inside commands (also two faults inside one call, also on the attach INQUIRY) on both simulated transports, through direct execute (fresh and re-executed command objects) and every facade method, raw sense on/off, also inside with blocks; the batch is repeated under python -O; the status x transport x path x raw sub-space is enumerated completely in the thorough tier. Evidence, not proof: sequences are sampled.",
         note="Trusts the stub bindings' contract (DESIGN 4.3) and the independent t10 sense decoder; on SG_IO a non-CC failure status is only required to raise some exception."),
     "C08": dict(
         category="fault_enumeration", design_ref="DESIGN.md 5/C08",
@@ -24,7 +24,7 @@ CHECKS = {
         note="Trusts t10/targets.BlockLU and the stub bindings (iSCSI stub moves data according to the Task's direction/length, as on the wire). Transfer lengths above 2**17 blocks not explored."),
     "C15": dict(
         category="exploration", design_ref="DESIGN.md 5/C15",
-        technique="deterministic simulation with fault injection: seeded event histories (execute / replug / unplug / plug / device returning under another kernel name / failing close / re-open refused once / node vanishing between two system calls of the library / CHECK CONDITION / ioctl error / close / with-exit) over a virtual /dev namespace with device nodes and symbolic links; handle model checked over the seam history after every event",
+        technique="deterministic simulation with fault injection: seeded event histories (execute / replug / unplug / plug / device returning under another kernel name / failing close / re-open refused once / node vanishing between two system calls of the library / facade built midway / second user of the node / CHECK CONDITION / ioctl error / close / with-exit, simulated time passing between the events) over a virtual /dev namespace with device nodes and symbolic links; handle model checked over the seam history after every event",
         text="The OS device node is simulated (inodes, handle generations, close faults of two flavours); SCSIDevice, ISCSIDevice and the facade's context manager run unmodified. After every event the oracle checks, from the recorded seam events, that no command went through a handle that is not on the node the named path (node or persistent symbolic link) leads to now, that superseded handles were closed, that a fresh handle was opened even when closing the stale one failed, that a vanished node is an error, that detection-off keeps the original handle, and at the end that every handle was released exactly once. Sampling of histories up to 25 events.",
         note="Node replacement happens between library calls, except the fault that unplugs the node right after an open() of the library succeeded; a node replaced between the library's stat and its ioctl is not generated. Trusts the virtual /dev model of inode and close semantics."),
     "C16": dict(
@@ -50,7 +50,7 @@ CHECKS = {
     "C11": dict(
         category="exploration", design_ref="DESIGN.md 5/C11, 4.7",
         technique="deterministic simulation with fault injection: corrupt_datain / sense_payload faults applied to a live simulated target's well-formed responses (biased to embedded length/count fields), deterministic step meter (sys.settrace line events) as bounded-liveness oracle",
-        text="Bounded liveness: every facade call and every direct decode of the corrupted bytes must return or raise within 20000 + 400*len(buffer) source-line steps of library code, a budget about 4x the steepest honest decode of corrupt data (one descriptor per byte), so a non-terminating loop is a reproducible budget violation (not a wall-clock kill) and a merely slower decoder is not. Seeded corruption of every data-in format incl. all PR IN service actions, VPD pages, READ ELEMENT STATUS with volume tags, READ CD layouts; the sense-code space is swept under the meter.",
+        text="Bounded liveness: every facade call and every direct decode of the corrupted bytes must return or raise within 20000 + 400*len(buffer) source-line steps of library code, a budget about 4x the steepest honest decode of corrupt data (one descriptor per byte), so a non-terminating loop is a reproducible budget violation (not a wall-clock kill) and a merely slower decoder is not. Seeded corruption of every data-in format incl. all PR IN service actions, VPD pages, READ ELEMENT STATUS with volume tags, READ CD layouts; the sense-code space is swept under the meter. Targets that keep answering the same way (UNIT ATTENTION / BUSY for ever, an unsupported operation code) bound the commands per call; a sample of runs polls one command 40 times and bounds what library allocation sites retain.",
         note="Sampling of a 2**(8n) space: the bias towards zero/maximal/inconsistent length fields is what finds loops; what decoders return for corrupt data is not judged. Buffers up to 16 KiB."),
     "C18": dict(
         category="exploration", design_ref="DESIGN.md 5/C18",
@@ -59,7 +59,7 @@ CHECKS = {
         note="Names starting with '__', type/Enum API attribute names, callable values and NaN are excluded because the property's wording does not fix their behaviour."),
     "C19": dict(
         category="fault_enumeration", design_ref="DESIGN.md 5/C19",
-        technique="deterministic simulation with fault injection at the installation seam: each run imports the library freshly under one of the 4 presence combinations of fake sgio/iscsi bindings (absence = injected fault), then drives init_device/constructors with device strings; oracle over the seam history (no open/stat/connect before a refusal)",
+        technique="deterministic simulation with fault injection at the installation seam: each run imports the library freshly under one of the 4 presence combinations of fake sgio/iscsi bindings (absence = injected fault), from the source tree or from the layout `packages = find:` installs, then drives init_device/constructors with device strings; oracle over the seam history (no open/stat/connect before a refusal)",
         text="The four binding configurations x 17 device strings x rw x {init_device, SCSIDevice, ISCSIDevice} x initiator-name variants are enumerated completely in both tiers and random strings are added; every module under pyscsi is imported, every command class built/encoded/decoded and the facade driven over plain device objects of every command-set family in each configuration. For refused requests the seam log must be empty; for accepted ones it must show exactly one open/connect on exactly the requested path/URL with the requested mode and initiator name.",
         note="Absence is simulated with sys.modules[name]=None (ModuleNotFoundError); a binding that is installed but fails to load is outside the property's four combinations and not judged; the real bindings' behaviour for malformed paths/URLs is stubbed leniently."),
 }
